@@ -1245,6 +1245,9 @@ class Interp:
                     raise RaiseSig(ExcV("TypeError", ("missing dataclass field",)))
         elif args or kwargs:
             raise RaiseSig(ExcV("TypeError", ("object() takes no arguments",)))
+        hook = self.hooks.get("post_init")
+        if hook is not None:
+            hook(self, o)
         return o
 
     # ------------------------------------------------------------------ attributes
